@@ -403,11 +403,19 @@ def run(tier, seed):
               "documented bit rate and attributes also under a fault (TargetIntact)",
               "RC-S380 frame checksums are not verified by nfcpy (outside the C14 statement): Data accepted for BadChecksum/CutTail there",
               "exchange() returning None is accepted only in target mode (documented there), never for an initiator")
+    # frontend level (clf/__init__.py is an anchored file): what every public API call returns or raises when another
+    # thread closes the frontend before, while or after it - schedules from the C15 machinery, judged against the
+    # documented outcome set (IOError(ENODEV) once closed, never AttributeError/TypeError/...)
+    from bind import c13_frontend
+    c13_frontend.stage(ck, tier, seed)
     return ck.finish()
 
 
 def replay(rep, args):
     r = rep["replay"]
+    if r.get("kind") == "frontend-schedule":
+        from bind import c13_frontend
+        return c13_frontend.replay(rep)
     if r["k"] in OP.OP_KINDS and r.get("kind") == "slice":
         bs = walk_ops(r["driver"], r["tier"], only_kinds=(r["k"],))
     elif r["k"] in OP.OP_KINDS:
